@@ -179,7 +179,7 @@ theorem aesInfoOf_dataOf (g : Gen.ZipFileData) : aesInfoOf g.aes_mode = (dataOf 
   · rfl
   · cases vv <;> rfl
 
-theorem getElem?_archOf (z : Gen.ZipArchive) (i : Nat) :
+theorem getElemOpt_archOf (z : Gen.ZipArchive) (i : Nat) :
     (archOf z).files[i]? = (z.shared.files.items[i]?).map dataOf := by
   simp only [archOf, archRes, List.getElem?_map]
 
@@ -239,7 +239,7 @@ theorem tie_by_index (ext : GExt) (z : Gen.ZipArchive) (i : UInt64) (pw : Option
         (fun c => (c.map fun cr => (r.1, true, some cr, Gen.ZipFileReader.NoReader), dsStores r.2.1)) <$>
           runChoice ext ⟨r.1.compressedSize⟩ r.1.compressedSize r.2.2) := by
   unfold Gen.ZipArchive.by_index_with_optional_password Model.byIndexOpen
-  rw [getElem?_archOf]
+  rw [getElemOpt_archOf]
   have hget : Rs.Vec.get z.shared.files i = z.shared.files.items[i.toNat]? := rfl
   rw [hget]
   cases hf : z.shared.files.items[i.toNat]? with
@@ -265,7 +265,7 @@ theorem tie_by_index_raw (z : Gen.ZipArchive) (i : UInt64) :
       (Model.byIndexRawOpen (archOf z) i.toNat >>= fun r =>
         pure ((r.1, true, none, Gen.ZipFileReader.Raw ⟨r.1.compressedSize⟩), dsStores r.2)) := by
   unfold Gen.ZipArchive.by_index_raw Model.byIndexRawOpen
-  rw [getElem?_archOf]
+  rw [getElemOpt_archOf]
   have hget : Rs.Vec.get z.shared.files i = z.shared.files.items[i.toNat]? := rfl
   rw [hget]
   cases hf : z.shared.files.items[i.toNat]? with
